@@ -25,7 +25,7 @@ for d in sorted(os.listdir(os.path.join(V, "seeded"))):
         "origin": "written by a sub-agent that saw only the property text and a scratch worktree of /repo (nothing from /verif)",
         "what_it_needs_to_manifest": notes.strip()[:1500],
         "confirmed": "tests: 273 passed with the change (PYTHONPATH=<worktree>/src pytest --no-cov); demo.py exits 1 with the change and 0 without (harness/seed_verify.sh)",
-        "patch_note": "patch.diff rebased onto the later fix commit 20cacfc (same one-line change); the sub-agent's original is patch.original.diff" if os.path.exists(os.path.join(sd, "patch.original.diff")) else "patch.diff applies to /repo HEAD",
+        "patch_note": "patch.diff rebased onto a later fix: commit of /repo (the same change on the repaired code); the sub-agent's original is patch.original.diff" if os.path.exists(os.path.join(sd, "patch.original.diff")) else "patch.diff applies to /repo HEAD",
         "checks_run": results,
         "detected": any(r["exit_code"] == 1 for r in results),
     }
